@@ -35,7 +35,8 @@ RULE = ("cases = (recovery mechanism, family, destination address, destination p
         "texts; a case is non-trivial when it reached the server's connect/sendto, took an error branch or "
         "hit the self-address guard (listener bound to wildcard / loopback / LAN address x dialled local address); "
         "UDP also as sequences of 2-5 datagrams from 1-3 sources where one source addresses several destinations "
-        "within one association; pf also as whole sessions (real FirewallClient and real firewall.main('pf') loop over a "
+        "within one association; every case runs at an sshuttle verbosity level taken from the rotation [0,0,3,0,2,0,3,1] "
+        "shifted by the seed (stored in the replay case); pf also as whole sessions (real FirewallClient and real firewall.main('pf') loop over a "
         "socket pair) interleaving HOST lines, some with a failing hosts-file rewrite, and 2-8 connections; distinct = distinct canonical model-input line(s)")
 MANIFEST = dict(
     level_text=("Machine-checked Lean 4 theorems (core only, axioms propext/Classical.choice/Quot.sound) over a "
@@ -69,6 +70,7 @@ MANIFEST = dict(
 )
 DRIVER_TARGETS = ['SshuttleModel.Code.Dst']
 ASSUMPTIONS = [
+    "the pf helper runs at the client's verbosity (its -v count is passed on the helper's command line)",
     "the kernel fills sockaddr_in / sockaddr_in6 / the ORIGDSTADDR cmsg / pfioc_natlook as the platform headers say",
     "recvmsg() fills the control buffer the way Linux put_cmsg() does (fake validated against real loopback sockets on every run)",
     "getsockname()/getpeername() print numeric addresses the way inet_ntop does (no %scope suffix)",
@@ -231,7 +233,7 @@ class Env:
         self.helpers, self.ssnet, self.client, self.server = helpers, ssnet, client, server
         self.methods, self.tproxy, self.ipfw, self.pfm, self.nat = methods, tproxy, ipfw, pfm, nat
         self.saved = []
-        helpers.verbose = 0
+        self.patch(helpers, 'verbose', 0)
         self.patch(ssnet, 'set_non_blocking_io', lambda fd: None)
         self.islocal_script = None
         self.islocal_calls = []
@@ -433,6 +435,59 @@ def v6_pool(rng, per_pattern, extra):
     return out
 
 
+# ---------------------------------------------------------------- verbosity is a dimension of every case
+
+LEVELS = [0, 0, 3, 0, 2, 0, 3, 1]      # rotation, shifted by the seed: over seeds 0..7 every directed case
+                                        # has run at every level
+
+
+class NullSink:
+    def write(self, s):
+        return len(s)
+
+    def flush(self):
+        pass
+
+
+def next_level(ctx):
+    k = getattr(ctx, '_c05_level_k', 0)
+    ctx._c05_level_k = k + 1
+    return LEVELS[(k + ctx.seed) % len(LEVELS)]
+
+
+class at_level:
+    """Run the real code at sshuttle verbosity `level` (client and, for pf, the helper side: one process
+    here, one -v count there); sys.stderr is a sink while it runs.  Behaviour must not depend on it."""
+
+    def __init__(self, level):
+        self.level = level
+
+    def __enter__(self):
+        import sshuttle.helpers as helpers
+        self.helpers = helpers
+        self.old = (helpers.verbose, sys.stderr)
+        helpers.verbose = self.level
+        sys.stderr = NullSink()
+
+    def __exit__(self, *a):
+        self.helpers.verbose, sys.stderr = self.old
+        return False
+
+
+def leveled(fn):
+    """The case's level: taken from the case (replay) or from the rotation, and stored in the case."""
+    def w(ctx, env, logs, case):
+        if 'verbose' not in case:
+            case['verbose'] = next_level(ctx)
+        with at_level(case['verbose']):
+            r = fn(ctx, env, logs, case)
+        ctx.hist('verbosity:%d' % case['verbose'])
+        return r
+    w.__name__ = fn.__name__
+    w.__doc__ = fn.__doc__
+    return w
+
+
 # ---------------------------------------------------------------- logs
 
 class Log:
@@ -517,31 +572,37 @@ def stream_odst(ctx, env, logs):
         p = port_of(rng)
         pad = bytes(rng.getrandbits(8) for _ in range(8)) if rng.random() < 0.3 else bytes(8)
         sa = sockaddr_in(p, a)[:8] + pad
-        line, out, r = odst_case(env, AF4, sa)
+        lvl = next_level(ctx)
+        with at_level(lvl):
+            line, out, r = odst_case(env, AF4, sa)
         logs.append(Log('odst4').add(line, out))
         if r is None or not same_dest(AF4, r[0], r[1], a, p):
             ctx.violation('C05:odst:destination-differs', case=dict(stream='odst', family=AF4, sockopt=hexb(sa),
-                                                                     addr=hexb(a), port=p),
+                                                                     addr=hexb(a), port=p, verbose=lvl),
                           expected='%s port %d' % (ipaddress.ip_address(a), p), observed=out)
     for a in v6_pool(rng, ctx.scale(6, 150), ctx.scale(1500, 60000)):
         p = port_of(rng)
         flow = bytes(rng.getrandbits(8) for _ in range(4)) if rng.random() < 0.5 else bytes(4)
         scope = bytes(rng.getrandbits(8) for _ in range(4)) if rng.random() < 0.3 else bytes(4)
         sa = sockaddr_in6(p, a, flow, scope)
-        line, out, r = odst_case(env, AF6, sa)
+        lvl = next_level(ctx)
+        with at_level(lvl):
+            line, out, r = odst_case(env, AF6, sa)
         logs.append(Log('odst6').add(line, out))
         if r is None or not same_dest(AF6, r[0], r[1], a, p):
             ctx.violation('C05:odst:destination-differs', case=dict(stream='odst', family=AF6, sockopt=hexb(sa),
-                                                                     addr=hexb(a), port=p),
+                                                                     addr=hexb(a), port=p, verbose=lvl),
                           expected='%s port %d' % (ipaddress.ip_address(a), p), observed=out)
     # error / malformed branches
     for fam in (AF4, AF6, 1, 17):
         for e in (errno.ENOPROTOOPT, errno.ENOENT, errno.EINVAL, errno.EBADF):
-            line, out, _ = odst_case(env, fam, e)
+            with at_level(next_level(ctx)):
+                line, out, _ = odst_case(env, fam, e)
             logs.append(Log('odst-err').add(line, out))
         for n in (0, 1, 7, 8, 9, 15, 16, 23, 24, 27, 28, 40, 64, 70):
             sa = bytes(rng.getrandbits(8) for _ in range(n))
-            line, out, _ = odst_case(env, fam, sa)
+            with at_level(next_level(ctx)):
+                line, out, _ = odst_case(env, fam, sa)
             logs.append(Log('odst-short').add(line, out))
 
 
@@ -848,6 +909,7 @@ def oracle_tcp(ctx, case, info, addr, port, is_self):
                       observed='family=%d ip=%r port=%r' % (f, ip, p))
 
 
+@leveled
 def run_tcp(ctx, env, logs, case):
     addr = common.unhex(case['addr'])
     ins, outs, info = tcp_case(env, case['method'], case['family'], addr, case['port'], lport=case['lport'],
@@ -954,6 +1016,7 @@ def cmsg_line(method, cms):
     return 'cmsg %d %s %s' % (1 if LE else 0, method, ' '.join('%d.%d.%s' % (l, t, hexb(d)) for (l, t, d) in cms))
 
 
+@leveled
 def run_udp(ctx, env, logs, case):
     """One diverted datagram: real onaccept_udp (tproxy) -> real server udp_open/udp_req -> sendto."""
     client, ssnet = env.client, env.ssnet
@@ -1030,6 +1093,7 @@ def next_free(mux, ssnet):
     return None
 
 
+@leveled
 def run_udp_seq(ctx, env, logs, case):
     """Several datagrams through one client / one server: sources may repeat, and a repeated source
     may address a different destination each time (one unconnected socket, several sendto())."""
@@ -1199,7 +1263,10 @@ def validate_recvmsg_fake(ctx):
 
 def run_udp_real(ctx, env, case):
     fam = case['family']
-    want, got, exc = real_origdst(env, fam)
+    if 'verbose' not in case:
+        case['verbose'] = next_level(ctx)
+    with at_level(case['verbose']):
+        want, got, exc = real_origdst(env, fam)
     ok = exc is None and got is not None and same_dest(fam, got[0], got[1], socket.inet_pton(fam, want[0]), want[1])
     if not ok:
         ctx.violation('C05:udp:real-socket-destination-lost', case=case,
@@ -1243,7 +1310,8 @@ def stream_udp(ctx, env, logs):
             case['noise'] = [n for n in case['noise'] if (n[0], n[1]) not in ((int(socket.SOL_IP), 20), (41, 74))]
         run_udp(ctx, env, logs, case)
         ctx.hist('udp:%s' % ('v4' if fam == AF4 else 'v6'))
-    # decoding alone: malformed / foreign ancillary data
+    # decoding alone: malformed / foreign ancillary data (the level rotates here too)
+    helpers_mod = env.helpers
     for _ in range(ctx.scale(1000, 50000)):
         items = []
         for _ in range(rng.randrange(0, 3)):
@@ -1255,6 +1323,7 @@ def stream_udp(ctx, env, logs):
                 d[0:2] = u16_native(rng.choice([AF4, AF6]))
             items.append((lvl, typ, bytes(d)))
         raw = rng.random() < 0.5      # half: the decoding loop on the untouched list; half: through the buffer
+        helpers_mod.verbose = next_level(ctx)
         line, out, _r = udp_case(env, items, AF4, b'x', raw=raw)
         logs.append(Log('cmsg-tproxy').add(line, out))
         lst = FakeUdpListener(AF4, (b'x', items, 0, ('192.0.2.9', 5353)), raw=raw)
@@ -1264,6 +1333,7 @@ def stream_udp(ctx, env, logs):
         except Exception as e:  # noqa
             out = excname(e)
         logs.append(Log('cmsg-ipfw').add(cmsg_line('i', lst.delivered if lst.delivered is not None else items), out))
+    helpers_mod.verbose = 0
 
 
 # ---------------------------------------------------------------- pf: whole sessions over the helper channel
@@ -1338,6 +1408,7 @@ class RecFile:
         return self.f.close()
 
 
+@leveled
 def run_pf_session(ctx, env, logs, case):
     """The real FirewallClient and the real firewall.main('pf') loop joined by a socket pair: HOST lines
     (some of whose hosts-file rewrite fails at chown) interleaved with accepted connections."""
@@ -1428,6 +1499,7 @@ def run_pf_session(ctx, env, logs, case):
     lg = Log('pf-session')
     lg.add('sess new', 'ok')
     bad = None
+    bads = []
     fw = None
     try:
         fw = client.FirewallClient('pf', False)
@@ -1496,9 +1568,11 @@ def run_pf_session(ctx, env, logs, case):
             elif not connects and helper_alive and not miss:
                 what = ('C05:pf-session:dropped-while-helper-alive',
                         'closed=%d, no CONNECT, helper still running; the client read %r' % (sock.closed, got))
-            if what and bad is None:
-                bad = dict(key=what[0], op=i, expected='one CONNECT to %s port %d (or, once the helper has ended, a drop)'
-                           % (ipaddress.ip_address(addr), port), observed=what[1])
+            if what and what[0] not in [b_['key'] for b_ in bads]:     # every connection is judged on its own
+                bads.append(dict(key=what[0], op=i,
+                                 expected='one CONNECT to %s port %d (or, once the helper has ended, a drop)'
+                                 % (ipaddress.ip_address(addr), port), observed=what[1]))
+                bad = bad or bads[0]
     except Exception as e:  # noqa
         if bad is None:
             bad = dict(key='C05:pf-session:unexpected-exception', op=-1, expected='the session runs', observed=repr(e))
@@ -1516,10 +1590,12 @@ def run_pf_session(ctx, env, logs, case):
             setattr(obj, name, val)
         shutil.rmtree(tmp, ignore_errors=True)
     logs.append(lg)
-    if bad is not None:
-        ctx.violation(bad['key'], case=case, expected=bad['expected'],
-                      observed=dict(op=bad['op'], what=bad['observed']),
-                      note='op #%d of the session (real FirewallClient <-> real firewall.main over a socket pair)' % bad['op'])
+    if bad is not None and not bads:
+        bads = [bad]
+    for b_ in bads:
+        ctx.violation(b_['key'], case=case, expected=b_['expected'],
+                      observed=dict(op=b_['op'], what=b_['observed']),
+                      note='op #%d of the session (real FirewallClient <-> real firewall.main over a socket pair)' % b_['op'])
     return bad
 
 
@@ -1572,6 +1648,7 @@ def stream_server_malformed(ctx, env, logs):
     for _ in range(ctx.scale(1500, 30000)):
         cases.append(bytes(rng.choice(al) for _ in range(rng.randrange(0, 14))))
     for payload in cases:
+        env.helpers.verbose = next_level(ctx)
         env.reset_server()
         env.connects = []
         try:
@@ -1593,6 +1670,7 @@ def stream_server_malformed(ctx, env, logs):
         logs.append(Log('server-udp-malformed').add('udpreq ' + hexb(payload), out))
     env.reset_server()
     smux.outbuf[:] = []
+    env.helpers.verbose = 0
 
 
 def stream_pf_malformed(ctx, env, logs):
@@ -1607,6 +1685,7 @@ def stream_pf_malformed(ctx, env, logs):
     for _ in range(ctx.scale(500, 5000)):
         fixed.append(b'QUERY_PF_NAT_SUCCESS ' + bytes(rng.choice(al) for _ in range(rng.randrange(0, 12))))
     for line in fixed:
+        env.helpers.verbose = next_level(ctx)
         sock = FakeSock(AF4, sockname=('SOCKNAME', 1), peername=('10.0.0.1', 1234))
         pfile = types.SimpleNamespace(write=lambda b: None, flush=lambda: None, readline=lambda line=line: line)
         method.set_firewall(types.SimpleNamespace(pfile=pfile))
@@ -1627,6 +1706,7 @@ def stream_pf_malformed(ctx, env, logs):
     for lay in 'FOD':
         for cmd in cmds:
             for kern in ('E', (bytes([1, 2, 3, 4]), 80)):
+                env.helpers.verbose = next_level(ctx)
                 env.pfm.pf = pf_instance(env, lay)
                 layd = PF_LAYOUTS[lay]
                 env.kernel = (lambda raw: OSError(errno.ENOENT, 'x')) if kern == 'E' else \
@@ -1639,6 +1719,10 @@ def stream_pf_malformed(ctx, env, logs):
                 k = 'E' if kern == 'E' else '%s.%d' % (hexb(kern[0] + bytes(12)), kern[1])
                 logs.append(Log('pf-cmd').add('pfcmd %s %s %s' % (lay, k, hexb(pfile.cmd_lines[0].encode('latin-1'))),
                                               pfile.cmd_outs[0]))
+
+
+def _reset_level(env):
+    env.helpers.verbose = 0
 
 
 def real_islocal_probe(ctx, env):
@@ -1680,7 +1764,7 @@ def run(ctx):
     env = Env()
     logs = []
     old_err = sys.stderr
-    sys.stderr = io.StringIO()
+    sys.stderr = NullSink()
     try:
         stream_odst(ctx, env, logs)
         stream_lib(ctx, env, logs)
@@ -1690,6 +1774,7 @@ def run(ctx):
         stream_pf_session(ctx, env, logs)
         stream_server_malformed(ctx, env, logs)
         stream_pf_malformed(ctx, env, logs)
+        _reset_level(env)
     finally:
         sys.stderr = old_err
         env.close()
@@ -1718,7 +1803,8 @@ def replay(ctx, rep):
     try:
         if case['stream'] == 'odst':
             sa = common.unhex(case['sockopt'])
-            _line, out, r = odst_case(env, case['family'], sa)
+            with at_level(case.get('verbose', 0)):
+                _line, out, r = odst_case(env, case['family'], sa)
             bad = r is None or not same_dest(case['family'], r[0], r[1], common.unhex(case['addr']), case['port'])
             return bad, 'original_dst returned %s; dialled %s port %d' % (
                 out, ipaddress.ip_address(common.unhex(case['addr'])), case['port'])
